@@ -97,6 +97,8 @@ def gen_filters(rnd: random.Random, fns, k: int | None = None) -> invgen.Filters
         F(x_contracts=[A], t_selectors=[(A, [f])]),  # excluded, but named by targetSelectors: stays a target, restricted to f
         F(t_contracts=[A, B], x_contracts=[A], t_selectors=[(A, [f, g])]),
         F(x_contracts=[A, B], t_selectors=[(B, ["noop()"]), (A, [g])]),
+        F(t_senders=[invgen.OWNER, invgen.OTHER]),  # two admissible senders: either of them
+        F(t_senders=[invgen.OWNER, invgen.OTHER, invgen.ANY], x_senders=[invgen.ANY]),
         F(t_senders=[invgen.OWNER, invgen.OTHER], x_senders=[invgen.OWNER]),
         F(t_senders=[invgen.OTHER], x_senders=[invgen.OTHER]),  # nothing left to target: anyone but the excluded
         F(t_senders=[invgen.OWNER], x_selectors=[(A, [f])], x_contracts=[B]),
@@ -104,7 +106,7 @@ def gen_filters(rnd: random.Random, fns, k: int | None = None) -> invgen.Filters
     return shapes[k % len(shapes)] if k is not None else rnd.choice(shapes)
 
 
-NSHAPES = 17
+NSHAPES = 19
 
 
 def concretise(expr, env: dict) -> int:
@@ -339,7 +341,7 @@ def run(chk: Check, tier: str):
         "generated target contracts (2-4 functions over two state words: increments, guarded sets, owner-only, payable, "
         "asserting, swap/reset, and functions comparing block.timestamp with the timestamp of their previous call) with an invariant test contract; Frontier.tla explores every sequence of <= d calls over "
         "complete finite domains (arguments masked to 0..3, senders {OWNER, OTHER}, values {0,1}, non-decreasing timestamps from 1..d+1) with one Evm!Run per call; "
-        "a third of the machines declare target/exclude filters (contracts, selectors, senders; 17 shapes) through forge-std's getters: "
+        "a third of the machines declare target/exclude filters (contracts, selectors, senders; 19 shapes) through forge-std's getters: "
         "Frontier!TargetAddrs/TargetFns/Senders resolve them by Foundry's rules and the calls and sender sets halmos sets up are compared with them; "
         "state identity: PathSlice.tla (slice = connected component of the path's conditions; backward-only update refuted) with every enumerated "
         "append/branch history replayed into the real Path; "
